@@ -108,6 +108,10 @@ def cases(draw, name):
     bad = draw(st.sampled_from([None, None, "typo", "pd-on-nondispersible", "dot-width-nondispersible", "pd-typo"]))
     case["bad"] = bad
     case["bad_seed"] = draw(st.integers(0, 10 ** 6))
+    # how each value reaches the bumps model: constructor keyword, assignment to .value afterwards, or rebinding
+    # the attribute (model.radius = other.radius / Parameter(...), model.radius_pd_type = 'lognormal' as in the
+    # example fit scripts)
+    case["bumps_route"] = draw(st.lists(st.sampled_from(["init", "init", "value", "rebind"]), min_size=6, max_size=6))
     return case
 
 
@@ -301,6 +305,21 @@ def check_interfaces(case, rec):
     # ---- D: bumps wrapper
     exp = bumps_model.Experiment(data, bumps_model.Model(model, **dict(pars)))
     same(exp.theory(), "bumps")
+    route = case.get("bumps_route")
+    if route and any(r != "init" for r in route):
+        import bumps.parameter as bp
+        by = {k: route[i % len(route)] for i, k in enumerate(sorted(pars))}
+        bm = bumps_model.Model(model, **{k: v for k, v in pars.items() if by[k] == "init"})
+        exp2 = bumps_model.Experiment(data, bm)
+        exp2.theory()          # evaluated once with the incomplete settings, as a fit would before the change
+        for k, v in sorted(pars.items()):
+            if by[k] == "value" and not k.endswith("_pd_type"):
+                getattr(bm, k).value = v
+            elif by[k] != "init":
+                setattr(bm, k, v if k.endswith("_pd_type") else bp.Parameter(v, name=k))
+        exp2.update()
+        rec.cls("bumps-set-after-construction")
+        same(exp2.theory(), "bumps-set-after-construction")
 
 
 def _mult_args(info, pars):
